@@ -12,7 +12,10 @@ from vlib import ber_ref as B
 from vlib import build, driver, model as M, rigp, runner, specs
 
 PID = "C06"
-BASES = [(1, 3, 6, 1, 4, 1, 9, 2), (1, 3, 6, 1, 4, 1, 9, 127), (1, 3, 6, 1, 4, 1, 9, 16383)]   # (all-ones base-128 last arcs too)
+BASES = [(1, 3, 6, 1, 4, 1, 9, 2), (1, 3, 6, 1, 4, 1, 9, 127), (1, 3, 6, 1, 4, 1, 9, 16383),   # (all-ones base-128 last arcs too)
+         # a base of 126 BER octets: the universe's entries are 127, 128 and 129 octets long; and one of 207 octets
+         (1, 3, 6, 1, 4, 1, 9) + (4294967295,) * 23 + (268435455, 2),
+         (1, 3, 6, 1, 4, 1, 9) + (4294967295,) * 40 + (2,)]
 
 
 def universe(base):
